@@ -62,4 +62,67 @@ theorem apo_report_column_too_long (f s : Nat) (h0 : 1 ≤ f) (h1 : f ≤ s) (x 
     simp only [Strat.sClose]; unfold_ind; good_tac
   rw [C05.evalL_shift]; simp [hg.length x n]; omega
 
+/-! ### shape (a) reports, instantiated: every indicator column `Shift(column, w, 0)` has exactly one value per date,
+    for all admissible periods and all n ≥ w -/
+
+macro "report_col_tac " x:ident n:ident hn:ident : tactic => `(tactic|
+  (intro col hcol
+   refine shifted_column_length col _ 5 zero ?_ $x $n $hn
+   simp only [List.mem_cons, List.not_mem_nil, or_false] at hcol
+   (try rcases hcol with hc | hc | hc) <;> (try rcases hcol with hc | hc) <;> (try subst hc) <;> (try subst hcol) <;>
+     (simp only [Strat.sClose, Strat.sHigh, Strat.sLow, Strat.sOpen]; unfold_ind; good_tac)))
+
+theorem rsi_report_column (p : Nat) (h0 : 1 ≤ p) (x : Nat → Nat → α) (n : Nat) (hn : p ≤ n) :
+    ∀ col ∈ [rsi p (sClose : Sig α)], (evalL (envOf x 5 n) (shift p zero col)).length = n := by
+  report_col_tac x n hn
+
+theorem awesomeOscillator_report_column (s l : Nat) (h0 : 1 ≤ s) (h1 : s ≤ l) (x : Nat → Nat → α) (n : Nat) (hn : l - 1 ≤ n) :
+    ∀ col ∈ [awesomeOscillator s l (sHigh : Sig α) sLow], (evalL (envOf x 5 n) (shift (l - 1) zero col)).length = n := by
+  report_col_tac x n hn
+
+theorem aroon_report_columns (p : Nat) (h0 : 1 ≤ p) (x : Nat → Nat → α) (n : Nat) (hn : p - 1 ≤ n) :
+    ∀ col ∈ aroon p (sHigh : Sig α) sLow, (evalL (envOf x 5 n) (shift (p - 1) zero col)).length = n := by
+  simp only [aroon]
+  report_col_tac x n hn
+
+theorem cci_report_column (p : Nat) (h0 : 1 ≤ p) (x : Nat → Nat → α) (n : Nat) (hn : 2 * p - 2 ≤ n) :
+    ∀ col ∈ [cci p (sHigh : Sig α) sLow sClose], (evalL (envOf x 5 n) (shift (2 * p - 2) zero col)).length = n := by
+  report_col_tac x n hn
+
+theorem kdj_report_columns (rp kp dp : Nat) (h0 : 1 ≤ rp) (h1 : 1 ≤ kp) (h2 : 1 ≤ dp) (x : Nat → Nat → α) (n : Nat)
+    (hn : rp + kp + dp - 3 ≤ n) :
+    ∀ col ∈ kdj rp kp dp (sHigh : Sig α) sLow sClose, (evalL (envOf x 5 n) (shift (rp + kp + dp - 3) zero col)).length = n := by
+  simp only [kdj]
+  report_col_tac x n hn
+
+theorem qstick_report_column (p : Nat) (h0 : 1 ≤ p) (x : Nat → Nat → α) (n : Nat) (hn : p - 1 ≤ n) :
+    ∀ col ∈ [qstick p (sOpen : Sig α) sClose], (evalL (envOf x 5 n) (shift (p - 1) zero col)).length = n := by
+  report_col_tac x n hn
+
+theorem trix_report_column (p : Nat) (h0 : 1 ≤ p) (x : Nat → Nat → α) (n : Nat) (hn : 3 * p - 2 ≤ n) :
+    ∀ col ∈ [trix p (sClose : Sig α)], (evalL (envOf x 5 n) (shift (3 * p - 2) zero col)).length = n := by
+  report_col_tac x n hn
+
+/-! ### shape (b) reports, instantiated: the date axis `Skip(dates, w)` and the indicator columns (used as computed)
+    have the same number of values -/
+
+theorem stochasticRsi_report_axis (p : Nat) (h0 : 1 ≤ p) (x : Nat → Nat → α) (n : Nat) :
+    (evalL (envOf x 5 n) (skip (2 * p - 1) (input 3))).length = (evalL (envOf x 5 n) (stochasticRsi p (sClose : Sig α))).length := by
+  refine skipped_axis_length 3 (2 * p - 1) 5 (by omega) _ ?_ x n
+  simp only [Strat.sClose]; unfold_ind; good_tac
+
+theorem kama_report_axis (er fast slow : Nat) (h0 : 1 ≤ er) (x : Nat → Nat → α) (n : Nat) :
+    (evalL (envOf x 5 n) (skip er (input 3))).length = (evalL (envOf x 5 n) (kama er fast slow (sClose : Sig α))).length := by
+  refine skipped_axis_length 3 er 5 (by omega) _ ?_ x n
+  simp only [Strat.sClose]; unfold_ind; good_tac
+
+/-- Golden cross / triple moving average crossover: the slow EMA and the faster EMAs skipped to the slow warm-up -/
+theorem ema_report_axis (fast slow : Nat) (h0 : 1 ≤ fast) (h1 : fast ≤ slow) (x : Nat → Nat → α) (n : Nat) :
+    ∀ col ∈ [skip ((slow - 1) - (fast - 1)) (ema fast (Arith.nat 2) (sClose : Sig α)), ema slow (Arith.nat 2) sClose],
+      (evalL (envOf x 5 n) (skip (slow - 1) (input 3))).length = (evalL (envOf x 5 n) col).length := by
+  intro col hcol
+  refine skipped_axis_length 3 (slow - 1) 5 (by omega) col ?_ x n
+  simp only [List.mem_cons, List.not_mem_nil, or_false] at hcol
+  rcases hcol with hc | hc <;> subst hc <;> (simp only [Strat.sClose]; unfold_ind; good_tac)
+
 end C14
